@@ -11,8 +11,7 @@
 (***************************************************************************)
 EXTENDS DyMat, FiniteSets
 
-RECURSIVE SumMatSeq(_, _, _)
-SumMatSeq(f, i, d) == IF i > Len(f) THEN DM!ZeroMat(d, d) ELSE DM!MAdd(f[i], SumMatSeq(f, i + 1, d))
+SumMatSeq(f, i, d) == DM!SumMats(f, i, d)           \* (Mat.tla: evaluated eagerly)
 (* the matrix handed to the graphical lasso *)
 EmpiricalMatrix(P0, balance, v, y) ==
   LET d == Len(P0) IN
